@@ -521,3 +521,128 @@ Proof.
     as ([co sums] & n' & new & ext & R & D & H).
   exists co, sums, n', new, ext. split; [exact R|]. split; [exact D|exact H].
 Qed.
+
+(** * Fresh-variable blocks fixed by unit clauses *)
+
+Fixpoint zseq (a : Z) (k : nat) : list Z :=
+  match k with O => [] | S k' => a :: zseq (a + 1) k' end.
+
+Lemma zseq_length a k : length (zseq a k) = k.
+Proof. revert a. induction k as [|k IH]; intros a; cbn [zseq length]; [reflexivity|]. now rewrite IH. Qed.
+
+Lemma zseq_In a k v : In v (zseq a k) <-> a <= v < a + Z.of_nat k.
+Proof.
+  revert a. induction k as [|k IH]; intros a; cbn [zseq In].
+  - lia.
+  - rewrite IH. lia.
+Qed.
+
+Lemma zseq_fresh n k : Forall (fresh_in n (n + Z.of_nat k)) (zseq (n + 1) k).
+Proof.
+  apply Forall_forall. intros v Hv. apply zseq_In in Hv. unfold fresh_in. lia.
+Qed.
+
+Lemma zseq_app a k j : zseq a (k + j) = zseq a k ++ zseq (a + Z.of_nat k) j.
+Proof.
+  revert a. induction k as [|k IH]; intros a.
+  - cbn [Nat.add zseq app]. f_equal. lia.
+  - cbn [Nat.add zseq app]. rewrite IH. do 3 f_equal. lia.
+Qed.
+
+Lemma nfresh_run k : forall n cs,
+  nfresh k (mk n cs) = (zseq (n + 1) k, mk (n + Z.of_nat k) cs).
+Proof.
+  induction k as [|k IH]; intros n cs.
+  - cbn [nfresh zseq]. unfold ret. replace (n + Z.of_nat 0) with n by lia. reflexivity.
+  - cbn [nfresh zseq]. unfold bind, fresh, mk. cbn [next cls].
+    fold (mk (n + 1) cs). rewrite IH. unfold ret.
+    replace (n + 1 + Z.of_nat k) with (n + Z.of_nat (S k)) by lia. reflexivity.
+Qed.
+
+Lemma emit_run c n cs : emit c (mk n cs) = (tt, mk n (cs ++ c)).
+Proof. reflexivity. Qed.
+
+(** [ls] are literals of the consecutive variables [n+1, n+2, ...]. *)
+Fixpoint units_ok (n : Z) (ls : list Z) : Prop :=
+  match ls with
+  | [] => True
+  | l :: ls' => Z.abs l = n + 1 /\ units_ok (n + 1) ls'
+  end.
+
+Definition units (ls : list Z) : cnf := map (fun l => [l]) ls.
+
+Lemma sat_units s ls : sat s (units ls) = true <-> Forall (fun l => lit_true s l = true) ls.
+Proof.
+  induction ls as [|l ls IH]; cbn [units map].
+  - split; [constructor|reflexivity].
+  - rewrite sat_cons, andb_true_iff. fold (units ls). rewrite IH.
+    unfold csat. cbn [existsb]. rewrite orb_false_r. split.
+    + intros [H1 H2]. now constructor.
+    + intros H. inversion H; subst. now split.
+Qed.
+
+Lemma defines_units ls : forall n,
+  0 <= n -> units_ok n ls ->
+  exists ext, Defines n (n + Z.of_nat (length ls)) (units ls) ext.
+Proof.
+  induction ls as [|l ls IH]; intros n Hn Hok.
+  - exists (fun s => s). cbn [length units map]. replace (n + Z.of_nat 0) with n by lia.
+    now apply defines_nil.
+  - destruct Hok as [Hl Hok].
+    destruct (IH (n + 1) ltac:(lia) Hok) as [e2 D2].
+    destruct (gate_defines n [[l]] (fun _ => 0 <? l)) as [e1 D1]; try assumption.
+    { apply vars_upto_Forall. repeat constructor. unfold inr. lia. }
+    { reflexivity. }
+    { intros s. unfold sat, csat. cbn [forallb existsb]. rewrite orb_false_r, andb_true_r.
+      destruct (0 <? l) eqn:E.
+      - replace l with (n + 1) by lia. now rewrite lit_true_pos by lia.
+      - replace l with (- (n + 1)) by lia. rewrite lit_true_neg by lia.
+        destruct (s (n + 1)); cbn; intuition congruence. }
+    exists (fun s => e2 (e1 s)). cbn [length units map]. fold (units ls).
+    change ([l] :: units ls) with ([[l]] ++ units ls).
+    replace (n + Z.of_nat (S (length ls))) with (n + 1 + Z.of_nat (length ls)) by lia.
+    now apply (defines_seq n (n + 1)).
+Qed.
+
+Lemma units_ok_app n a b :
+  units_ok n a -> units_ok (n + Z.of_nat (length a)) b -> units_ok n (a ++ b).
+Proof.
+  revert n. induction a as [|x a IH]; intros n Ha Hb.
+  - cbn [app length] in *. now replace (n + Z.of_nat 0) with n in Hb by lia.
+  - cbn [app units_ok length] in *. destruct Ha as [Hx Ha]. split; [assumption|].
+    apply IH; [assumption|]. now replace (n + 1 + Z.of_nat (length a))
+      with (n + Z.of_nat (S (length a))) by lia.
+Qed.
+
+Lemma units_ok_opp_zseq n k : 0 <= n -> units_ok n (map Z.opp (zseq (n + 1) k)).
+Proof.
+  revert n. induction k as [|k IH]; intros n Hn; cbn [zseq map units_ok]; [exact I|].
+  split; [lia|]. apply IH. lia.
+Qed.
+
+Definition zero_cls (vs : list Z) : cnf := map (fun v => [- v]) vs.
+
+Lemma zero_cls_units vs : zero_cls vs = units (map Z.opp vs).
+Proof. unfold zero_cls, units. now rewrite map_map. Qed.
+
+Lemma zero_cls_defines n k :
+  0 <= n -> exists ext, Defines n (n + Z.of_nat k) (zero_cls (zseq (n + 1) k)) ext.
+Proof.
+  intros Hn. rewrite zero_cls_units.
+  destruct (defines_units (map Z.opp (zseq (n + 1) k)) n Hn (units_ok_opp_zseq n k Hn))
+    as [e D].
+  rewrite map_length, zseq_length in D. now exists e.
+Qed.
+
+Lemma zero_cls_sat s vs :
+  Forall (fun v => 0 < v) vs -> sat s (zero_cls vs) = true ->
+  Forall (fun v => lit_true s v = false) vs.
+Proof.
+  intros Hpos Hs. rewrite zero_cls_units in Hs. apply sat_units in Hs.
+  rewrite Forall_forall in *. intros v Hv.
+  specialize (Hs (- v) (in_map _ _ _ Hv)). specialize (Hpos v Hv).
+  rewrite lit_true_opp in Hs by lia. now destruct (lit_true s v).
+Qed.
+
+Lemma zseq_pos a k : 0 < a -> Forall (fun v => 0 < v) (zseq a k).
+Proof. intros H. apply Forall_forall. intros v Hv. apply zseq_In in Hv. lia. Qed.
